@@ -83,6 +83,14 @@ class NoTellFile:
         return self._raw.read(n)
 
 
+class ShortReadFile(NoTellFile):
+    """raw stream (pipe, socket file, io.RawIOBase): read(n) may return FEWER than n bytes before the end;
+    only an empty result means EOF"""
+
+    def read(self, n=-1):
+        return self._raw.read(min(n, 3) if n is not None and n >= 0 else 3)
+
+
 class TellRaisesFile(NoTellFile):
     """unseekable stream: tell() exists but raises OSError (e.g. sys.stdin on a pipe)"""
 
@@ -157,6 +165,7 @@ KINDS = {
     "file-bin": (True, True),
     "file-text": (True, True),
     "file-no-tell": (True, False),
+    "file-short-reads": (True, False),
     "file-tell-oserror": (True, False),
     "file-seek-oserror": (True, False),
     "list-bytes": (False, True),
@@ -216,10 +225,11 @@ def make_body(kind, size, offset, tmpdir):
         f = open(path, "r", encoding="utf-8", newline="")
         f.read(len(pre_u))
         return f, UNI[:size].encode("utf-8"), f.close
-    if kind in ("file-no-tell", "file-tell-oserror", "file-seek-oserror"):
+    if kind in ("file-no-tell", "file-short-reads", "file-tell-oserror", "file-seek-oserror"):
         raw = io.BytesIO(pre_b + BIN[:size])
         raw.seek(len(pre_b))
-        cls = {"file-no-tell": NoTellFile, "file-tell-oserror": TellRaisesFile, "file-seek-oserror": SeekRaisesFile}[kind]
+        cls = {"file-no-tell": NoTellFile, "file-short-reads": ShortReadFile, "file-tell-oserror": TellRaisesFile,
+               "file-seek-oserror": SeekRaisesFile}[kind]
         return cls(raw), BIN[:size], closer
     if kind == "list-bytes":
         return _pieces(BIN[:size]), BIN[:size], closer
